@@ -11,9 +11,9 @@ variable {α : Type} [Flt α]
 def pairEstimates (E : Engine α) (pwf : Nat → α → α) (euler sinh1 : α) (d : PairData α) (U : Ecp α) (sA sB : Shell α) : Array α :=
   estimateType2 E pwf U sA sB d euler sinh1
 
-/-- "the estimate of l exceeds the tolerance" -/
+/-- "the estimate of l is not at or below the tolerance" (`!(screens[l] <= tolerance)`: a NaN estimate does not screen) -/
 def passesL (E : Engine α) (pwf : Nat → α → α) (euler sinh1 : α) (d : PairData α) (U : Ecp α) (sA sB : Shell α) (l : Nat) : Bool :=
-  decide (E.pairTol < (pairEstimates E pwf euler sinh1 d U sA sB)[l]!)
+  !decide ((pairEstimates E pwf euler sinh1 d U sA sB)[l]! ≤ E.pairTol)
 
 /-- adding the semi-local contribution of one l to the block (the body of the l loop of compute_shell_pair) -/
 def addL (E : Engine α) (sw : Switches) (pwf : Nat → α → α) (pw : α → Nat → α) (maxPow : Nat)
